@@ -538,6 +538,15 @@ func (c *cluster) tplCfgRevert(rt *rapid.T) {
 	}
 	c.stats.class("tpl-cfgrevert-two-uncommitted-configs")
 	c.step(vAct{A: "cut", N: A, M: B, B: true})
+	if rapid.Bool().Draw(rt, "restartB") {
+		// what B falls back to must also survive a restart (it is re-derived from the log)
+		c.tplBounce(B)
+		if rf(B) == nil || rf(B).lastLogIndex != c3 {
+			bail()
+			return
+		}
+		c.stats.class("tpl-cfgrevert-restarted")
+	}
 	// C: leader of a later term through D and E, none of whom has C3
 	c.tplBounce(D, E)
 	if rf(D) == nil || rf(E) == nil {
